@@ -94,14 +94,15 @@ MkPart2(pk, k, v, c) ==
      /\ last' = [act |-> "MkPart", op |-> pk, a |-> k, b |-> v, c |-> c,
                  res |-> IF r2.out = "ok" THEN Len(r2.h) + 1 ELSE 0, out |-> r2.out, k2 |-> 0]
 
-\* MapOrListValue(key=k, index=k2, value=v, condition=c)
-MkMol(k, k2, v, c) ==
-  LET r1 == Materialise(Gcvc(heap, 0, k2))                          \* list_condition
-      r2 == IF r1.out = "ok" THEN Materialise(Gcvc(r1.h, 0, k)) ELSE r1   \* map_condition
+\* MapOrListValue(key=k, index=k2, value=v, list_condition=lc, map_condition=mc, condition=c): each of the three slots
+\* is get_container_value_condition(<slot argument>, <datum argument>), the list slot first
+MkMol(k, k2, v, c, lc, mc) ==
+  LET r1 == Materialise(Gcvc(heap, lc, k2))                          \* list_condition
+      r2 == IF r1.out = "ok" THEN Materialise(Gcvc(r1.h, mc, k)) ELSE r1   \* map_condition
       r3 == IF r2.out = "ok" THEN Materialise(Gcvc(r2.h, c, v)) ELSE r2   \* condition
   IN /\ heap' = IF r3.out = "ok" THEN Append(r3.h, CellPart("mol", r3.res, r1.res, r2.res)) ELSE r3.h
      /\ last' = [act |-> "MkMol", op |-> "mol", a |-> k, b |-> v, c |-> c,
-                 res |-> IF r3.out = "ok" THEN Len(r3.h) + 1 ELSE 0, out |-> r3.out, k2 |-> k2]
+                 res |-> IF r3.out = "ok" THEN Len(r3.h) + 1 ELSE 0, out |-> r3.out, k2 |-> k2, lc |-> lc, mc |-> mc]
 
 \* part.filter(d) for a map-or-list part: `list_condition & condition` (or map_condition) on the fly;
 \* the temporary combination is garbage and not kept in the heap.
